@@ -425,7 +425,9 @@ ben("c19_prefix_as_argument", [E(f"{SM}.log", lambda n: isinstance(n, ast.IfExp)
 
 # ----------------------------------------------------------------------------------------------- patch-reversal variants
 REVERSALS = {
-    "c02_unfix_cleanup_sequencing": "0006",
+    "c02_unfix_cleanup_sequencing": "0022,0006",
+    "c06_unfix_cleanup_failure_reported": "0022",
+    "c18_unfix_traced_cls": "0021",
     "c02_unfix_enter_rollback": "0007",
     "c07_unfix_swallow": "0010",
     "c07_unfix_cancelled": "0011",
@@ -449,3 +451,19 @@ REVERSALS = {
 WHOLE_FILE = {"c17_reformat": "utils/queue.py"}
 
 VARIANTS = V
+
+# =============================================================================================== sweep-triage additions (round 2)
+SMx = "context.metrics.ScopeMetrics"
+brk("c09_is_completed_ignores_own_future", [E(f"{SMx}.is_completed", lambda n: isinstance(n, ast.Return), to("return all(nested.is_completed for nested in self._nested)"))], {"C09": ["C09.11"]}, note="a leaf scope reports completed before it was left")
+ben("c09_is_completed_own_future_only", [E(f"{SMx}.is_completed", lambda n: isinstance(n, ast.Return), to("return self._completed.done()"))], ["C09"], note="own future resolves only after all nested completed")
+for _c in ("_SyncCache", "_AsyncCache"):
+    brk(f"c12_get_negated_{_c}", [E(f"helpers.caching.{_c}.__get__", lambda n: isinstance(n, ast.If), lambda s: s.replace("if owner is None or instance is None:", "if not (owner is None or instance is None):"))], {"C12": ["C12.1"]})
+    brk(f"c12_miss_returns_none_{_c}", [E(f"helpers.caching.{_c}.__call__", lambda n: isinstance(n, ast.Return), to("return None"), nth=-1)], {"C12": ["C12.2"]})
+brk("c18_traced_not_in_debug", [E("helpers.tracing.traced", lambda n: isinstance(n, ast.If) and U(n.test) == "__debug__", lambda s: s.replace("if __debug__:", "if not __debug__:", 1))], {"C18": ["C18.4"]})
+brk("c18_traced_dispatch_negated", [E("helpers.tracing.traced", lambda n: isinstance(n, ast.If) and "iscoroutinefunction" in U(n.test), lambda s: s.replace("if iscoroutinefunction(function):", "if not iscoroutinefunction(function):", 1))], {"C18": ["C18.4"]})
+brk("c18_retry_dispatch_negated", [E("helpers.retries.retry", lambda n: isinstance(n, ast.If) and "iscoroutinefunction" in U(n.test), lambda s: s.replace("if iscoroutinefunction(function):", "if not iscoroutinefunction(function):", 1))], {"C18": ["C18.5"]})
+brk("c18_cache_dispatch_negated", [E("helpers.caching.cache", lambda n: isinstance(n, ast.If) and "iscoroutinefunction" in U(n.test), lambda s: s.replace("if iscoroutinefunction(function):", "if not iscoroutinefunction(function):", 1))], {"C18": ["C18.5"]})
+brk("c18_arguments_trace_drops_kwargs", [E("helpers.tracing.ArgumentsTrace", lambda n: isinstance(n, ast.Return) and "kwargs=" in U(n), lambda s: s.replace("kwargs=kwargs if kwargs else MISSING", "kwargs=MISSING"))], {"C18": ["C18.4"]})
+brk("c18_result_trace_none", [E("helpers.tracing.ResultTrace", lambda n: isinstance(n, ast.Return) and "result=" in U(n), to("return None"))], {"C18": ["C18.4"]})
+brk("c06_unfix_cleanup_failure_reported", [], {"C06": ["C06.8"], "C07": ["C07.8"]}, note="reverse of fix 0022")
+brk("c18_unfix_traced_cls", [], {"C18": ["C18.1"]}, note="reverse of fix 0021")
